@@ -169,6 +169,34 @@ def _all_items():
     return out
 
 
+# values the rule documentation names (tables of styles; numbers used or mentioned in the text): each must be honoured as written
+DOC_VALUES = {
+    ("md002", "level"): [1, 2], ("md003", "style"): ["consistent", "atx", "atx_closed", "setext", "setext_with_atx", "setext_with_atx_closed"],
+    ("md003", "allow-setext-update"): [True, False], ("md004", "style"): ["consistent", "asterisk", "dash", "plus", "sublist"],
+    ("md007", "indent"): [2, 3, 4], ("md007", "start_indented"): [True], ("md009", "br_spaces"): [0, 2, 3], ("md009", "strict"): [True],
+    ("md009", "list_item_empty_lines"): [True], ("md010", "code_blocks"): [False], ("md012", "maximum"): [1, 2, 3],
+    ("md013", "line_length"): [50, 80, 100], ("md013", "code_block_line_length"): [50, 120], ("md013", "heading_line_length"): [50, 120],
+    ("md013", "code_blocks"): [False], ("md013", "headings"): [False], ("md013", "strict"): [True], ("md013", "stern"): [True],
+    ("md022", "lines_above"): [0, 1, 2], ("md022", "lines_below"): [0, 1, 2], ("md024", "siblings_only"): [True],
+    ("md024", "allow_different_nesting"): [True], ("md025", "level"): [1, 2], ("md029", "style"): ["one_or_ordered", "one", "ordered", "zero"],
+    ("md029", "allow_extended_start_values"): [True], ("md030", "ul_single"): [1, 2, 3], ("md030", "ul_multi"): [1, 3], ("md030", "ol_single"): [1, 2],
+    ("md030", "ol_multi"): [1, 2], ("md031", "list_items"): [False], ("md033", "allow_first_image_element"): [False],
+    ("md035", "style"): ["consistent", "---", "***", "- - -"], ("md041", "level"): [1, 2], ("md044", "code_blocks"): [False], ("md044", "code_spans"): [False],
+    ("md046", "style"): ["consistent", "fenced", "indented"], ("md048", "style"): ["consistent", "backtick", "tilde"], ("pml101", "indent"): [4],
+}
+
+
+def _docvalue_case(job):
+    rid, key, val, layer, strict = job
+    vals = [None, None, None, None]
+    vals[layer] = val
+    argv, files = _layers(rid, key, vals, "json", ".pymarkdown")
+    if strict:
+        argv = ["--strict-config"] + argv
+    o = runs.execute([], argv + ["plugins", "info", rid], cfg_files=files, keep_contents=False)
+    return {"argv": o["argv"], "code": o["code"], "shown": _shown(o["out"], key), "err": o["err"][-200:]}
+
+
 def _wrongtype_case(job):
     rid, key, typ, dflt, layer, strict = job
     bad = "abc" if typ in ("integer", "boolean") else 12
@@ -277,6 +305,20 @@ def run(pid, tier):
         elif o["code"] != 0 or o["shown"] != dflt:
             ctx.violation("allitems:lenient-wrong-type-not-default:%s" % tag, detail)
     ctx.ev.cov["evaluations"] += len(wjobs)
+    # ---- every value the documentation names for an item is honoured as written (Item: a valid value at the deciding layer is the value)
+    known_items = {(rid, key) for (rid, key, _t, _d) in allitems}
+    djobs = [(rid, key, v, layer, strict) for (rid, key), vs in sorted(DOC_VALUES.items()) if (rid, key) in known_items
+             for v in vs for layer, strict in ((0, False), (1, True), (2, False))]
+    if len(djobs) < 100:
+        raise Machinery("documented-values table does not match the items of `plugins info` (%d cases)" % len(djobs))
+    dres = impl.pmap(_docvalue_case, djobs, procs=16)
+    for (rid, key, v, layer, strict), o in zip(djobs, dres):
+        tag = "%s.%s=%s" % (rid, key, v)
+        if o["code"] != 0 or o["shown"] != _show(v):
+            ctx.violation("docvalue:not-honoured:%s" % tag, {"argv": o["argv"], "shown": o["shown"], "expected": _show(v), "code": o["code"], "stderr": o["err"],
+                                                            "layer": ("set", "config", "deffile")[layer], "strict": strict})
+    ctx.ev.cov["evaluations"] += len(djobs)
+    ctx.ev.parts["documented_values_checked"] = len(djobs)
     ctx.ev.parts["configurable_items_found"] = len(allitems)
     ctx.ev.cov["distinct_nontrivial"] = len({(json.dumps(j[0], sort_keys=True), j[1][0]) for j in jobs}) + len(ijobs) + len(wjobs)
     ctx.ev.cov["traces_validated_against_impl"] = len(jobs) + len(ijobs) + len(wjobs)
